@@ -2,6 +2,7 @@ package rules
 
 import (
 	"fmt"
+	"go/token"
 	"go/types"
 	"sort"
 	"strings"
@@ -175,6 +176,57 @@ func SwallowedErrors(p *load.Program, pkgs []string) {
 				if len(obs) > before && obs[len(obs)-1].Status == core.Violated {
 					n++
 					fmt.Printf("%s: %s swallows the error of %s\n", r.pos(c), ssax.FuncName(fn), ssax.CalleeName(c.Common()))
+				}
+			}
+		}
+	}
+	fmt.Println(n, "site(s)")
+}
+
+// NilPhiDerefs is a discovery aid: dereferences (load, field address, method call on pointer receiver is not
+// included) of a phi that has a nil-constant edge, reachable in the world "that value is nil".
+func NilPhiDerefs(p *load.Program, pkgs []string) {
+	r := &R{Ctx: &core.Ctx{P: p}, P: p}
+	n := 0
+	for _, fn := range p.ModuleFuncs(pkgs...) {
+		for _, b := range fn.Blocks {
+			for _, in := range b.Instrs {
+				var ptr ssa.Value
+				switch x := in.(type) {
+				case *ssa.UnOp:
+					if x.Op == token.MUL {
+						ptr = x.X
+					}
+				case *ssa.FieldAddr:
+					ptr = x.X
+				}
+				phi, ok := ptr.(*ssa.Phi)
+				if !ok {
+					continue
+				}
+				hasNil := false
+				for _, e := range phi.Edges {
+					if ssax.IsNilConst(e) {
+						hasNil = true
+					}
+				}
+				if !hasNil {
+					continue
+				}
+				atom := func(v ssa.Value) (bool, bool) {
+					bo, ok := v.(*ssa.BinOp)
+					if !ok || bo.Op != token.EQL && bo.Op != token.NEQ {
+						return false, false
+					}
+					if bo.X == ssa.Value(phi) && ssax.IsNilConst(bo.Y) || bo.Y == ssa.Value(phi) && ssax.IsNilConst(bo.X) {
+						return bo.Op == token.EQL, true
+					}
+					return false, false
+				}
+				target := func(x ssa.Instruction) bool { return x == in }
+				if _, _, found := worldSearch(fn, phi, target, atom); found {
+					n++
+					fmt.Printf("%s: %s dereferences %s, which is nil on some edge and not re-tested\n", r.pos(in), ssax.FuncName(fn), phi.Comment)
 				}
 			}
 		}
